@@ -2,6 +2,7 @@ package main
 
 import (
 	"fmt"
+	"sort"
 
 	"verif/checker/internal/effects"
 	"verif/checker/internal/load"
@@ -15,6 +16,17 @@ func runDev(id string) int {
 	var rule *Rule
 	if r, ok := devRules[id]; ok {
 		rule = &r
+	}
+	if rule == nil {
+		// any rule registered with a property (possibly an obligation-filtered view of it)
+		for _, pid := range sortedPropertyIDs() {
+			for _, r := range registry[pid].Rules {
+				if r.ID == id && rule == nil {
+					r := r
+					rule = &r
+				}
+			}
+		}
 	}
 	if rule == nil {
 		fmt.Println("unknown dev rule", id)
@@ -40,4 +52,13 @@ func runDev(id string) int {
 	}
 	fmt.Printf("%s: instances=%d discharged=%d violations=%d undecided=%d min=%d\n", res.ID, len(res.Obligations), res.Count(report.Discharged), res.Count(report.Violation), res.Count(report.Undecided), res.MinInstances)
 	return 0
+}
+
+func sortedPropertyIDs() []string {
+	var ids []string
+	for id := range registry {
+		ids = append(ids, id)
+	}
+	sort.Strings(ids)
+	return ids
 }
